@@ -20,6 +20,19 @@ def _impl(mod, case):
         return ("crash", f"{type(e).__name__}: {e}"[:300])
 
 
+def _run_case(mod, case, built=True):
+    if not built:
+        return ("model-error", "build failed"), ("skipped", "")
+    try:
+        return mod.run_case(case)
+    except ModelError as e:
+        return ("model-error", str(e)[:300]), ("unknown", "")
+    except BaseException as e:  # noqa
+        if isinstance(e, (KeyboardInterrupt, SystemExit, MemoryError)):
+            raise
+        return ("harness", ""), ("crash", f"{type(e).__name__}: {e}"[:300] + " | " + traceback.format_exc()[-600:])
+
+
 def _model_batch(mod, cases):
     lines = [mod.encode(c) for c in cases]
     outs = lib.run_driver(lines)
@@ -102,12 +115,21 @@ def run(prop, tier, seed, replay=None):
         cases.extend(mod.gen(ctx))
 
     model_problem = None
-    try:
-        mres = _model_batch(mod, cases) if proof["build_rc"] == 0 else [("model-error", "build failed")] * len(cases)
-    except Exception as e:
-        model_problem = f"{type(e).__name__}: {e}"[:500]
-        mres = [("model-error", model_problem)] * len(cases)
-    ires = [_impl(mod, c) for c in cases]
+    if hasattr(mod, "run_case"):
+        # per-case pipeline: the module runs implementation and model itself (the model's
+        # inputs depend on oracle values recorded from the implementation run)
+        mres, ires = [], []
+        for c in cases:
+            m, i = _run_case(mod, c, proof["build_rc"] == 0)
+            mres.append(m)
+            ires.append(i)
+    else:
+        try:
+            mres = _model_batch(mod, cases) if proof["build_rc"] == 0 else [("model-error", "build failed")] * len(cases)
+        except Exception as e:
+            model_problem = f"{type(e).__name__}: {e}"[:500]
+            mres = [("model-error", model_problem)] * len(cases)
+        ires = [_impl(mod, c) for c in cases]
 
     extra_fail = []
     extra = getattr(mod, "extra_checks", None)
@@ -169,18 +191,26 @@ def run(prop, tier, seed, replay=None):
         # (a) disagreeing cases, shrunk
         for c, m, i in unknown[:20]:
             def bad(cc):
-                mm = _model_batch(mod, [cc])[0]
-                ii = _impl(mod, cc)
+                if hasattr(mod, "run_case"):
+                    mm, ii = _run_case(mod, cc)
+                else:
+                    mm = _model_batch(mod, [cc])[0]
+                    ii = _impl(mod, cc)
                 if _same(mod, cc, mm, ii):
                     return False
                 if fk and fk(cc, mm, ii) in known_keys:
                     return False
                 return True
             cs = _shrink(mod, c, bad)
-            ii = _impl(mod, cs)
+            if hasattr(mod, "run_case"):
+                mm, ii = _run_case(mod, cs)
+            else:
+                ii = _impl(mod, cs)
+                mm = None
             msg = _oracle(mod, cs, ii)
             if msg:
-                mm = _model_batch(mod, [cs])[0]
+                if mm is None:
+                    mm = _model_batch(mod, [cs])[0]
                 failing = {"case": cs, "impl": ii, "model": mm, "property_failure": msg}
                 break
         # (b) the whole batch
